@@ -90,11 +90,12 @@ def h_baseline(env, name, nspin):
     env.finite("dedx_finite", [de])
 
 
-def h_assembled(env, slmode, nspin, mode, version, layout):
-    """whole non-negative domain through the real eval_xc_cider: finite outputs and exact zeros below rhocut"""
+def h_assembled(env, slmode, nspin, mode, version, layout, rhocut0=False):
+    """whole non-negative domain through the real eval_xc_cider: finite outputs and exact zeros below rhocut (rhocut0: the supported
+    setting rhocut = 0, no model-level cutoff, where only the code's own regularisers keep the energy per particle finite)"""
     fs = l1.build_settings(env, slmode, layout)
     rho, nldf, sdmx = l1.inputs(env, fs, nspin, physical=False)
-    rc = env.par("rhocut", "pos", lo="1/1000000000000", hi="1/1000")
+    rc = env.const(0) if rhocut0 else env.par("rhocut", "pos", lo="1/1000000000000", hi="1/1000")
     env.eps_real()
     ni = l1.make_numint(env, fs, nspin, mode, version, xmix=env.const(1), rhocut=rc, add=None)
     exc, vxc, vn, vs = l1.call(env, ni, rho, nldf, sdmx, nspin)
@@ -163,6 +164,9 @@ def tasks(tier):
     cfgs = [("npa", 1, "SEP", 1, "sl+nldf"), ("npa", 2, "SEP", 1, "sl"), ("nst", 2, "NPOL", 1, "sl+nldf"), ("npa", 1, "SEP", 2, "sl")]
     if tier == "thorough":
         cfgs += [("np", 2, "SEP", 1, "sl+nldf"), ("ns", 1, "NPOL", 1, "sl"), ("npa", 2, "POL", 1, "sl"), ("npa", 2, "SEP", 2, "sl+sdmx"), ("nst", 1, "NPOL", 2, "sl")]
+    for sm, ns, m, v, lay in [("npa", 1, "SEP", 1, "sl"), ("npa", 2, "NPOL", 1, "sl")]:
+        out.append(Task("assembled_rhocut0/%s/nspin%d/%s/v%d/%s" % (sm, ns, m, v, lay), h_assembled, dict(slmode=sm, nspin=ns, mode=m, version=v, layout=lay, rhocut0=True),
+                        mods="numint", max_paths=4096))
     for sm, ns, m, v, lay in cfgs:
         out.append(Task("assembled/%s/nspin%d/%s/v%d/%s" % (sm, ns, m, v, lay), h_assembled, dict(slmode=sm, nspin=ns, mode=m, version=v, layout=lay),
                         mods="numint", max_paths=4096))
